@@ -308,10 +308,12 @@ def run(ctx):
             ("unsafe/d3", {"ops": set_ops(QUICK_DIMS, 1) + CONTROLS[:2], "unsafe": True}, 3),
         ]
     else:
+        # (the value and expiry dimensions grew in the last round: pairs of varied dimensions over the full value lists
+        # and depth 3 over the two-variable alphabet no longer fit a thorough run of minutes and were cut back)
         plan = [
-            ("two-var-fulldims/d2", {"ops": set_ops(DIMS, 2) + CONTROLS}, 2),
-            ("two-var/d3", {"ops": set_ops(QUICK_DIMS, 2) + CONTROLS}, 3),
-            ("one-var-fulldims/d4", {"ops": set_ops(DIMS, 1) + CONTROLS}, 4),
+            ("two-var/d2", {"ops": set_ops(QUICK_DIMS, 2) + CONTROLS}, 2),
+            ("one-var-fulldims/d3", {"ops": set_ops(DIMS, 1) + CONTROLS}, 3),
+            ("one-var/d4", {"ops": set_ops(QUICK_DIMS, 1) + CONTROLS}, 4),
             ("core/d7", {"ops": CORE + CONTROLS[:6]}, 7),
             ("unsafe/d3", {"ops": set_ops(DIMS, 1) + CONTROLS[:2], "unsafe": True}, 3),
         ]
